@@ -428,11 +428,35 @@ def eval_repeat(ctx, case):
             ctx.count("repeat_equal_and_resolved")
 
 
+def eval_include_twice(ctx, case):
+    """The same file included several times in one document, its path spelled in a non-canonical way: every inclusion yields the file's nodes."""
+    spelled = case["path"].replace("TMPBASE", os.path.basename(TMP))
+    os.makedirs(os.path.join(TMP, "sub"), exist_ok=True)
+    with open(os.path.join(TMP, "plainfile.md"), encoding="utf8") as f:
+        text = f.read()
+    inc = f"```{{include}} {spelled}\n```\n"
+    a = inc + "\npara between\n\n" + inc + "\n::::{note}\n" + inc + "::::\n\n" + inc
+    b = text + "\npara between\n\n" + text + "\n::::{note}\n" + text + "::::\n\n" + text
+    src = os.path.join(TMP, "doc.md")
+    try:
+        da, wa = render(a, src)
+        db, wb = render(b, src)
+    except Exception as e:  # noqa: BLE001
+        ctx.count("no_document:" + type(e).__name__)
+        return False
+    ctx.count("include_twice_compared")
+    if canon(da.children) != canon(db.children) or warn_texts(wa) != warn_texts(wb):
+        ctx.violation("nodes-differ:include:same-file-again", f"including {spelled!r} four times does not give the file's nodes four times", case, {"W(X)": a, "X": b, "got": canon(da.children)[:2000], "expected": canon(db.children)[:2000], "warnings": wa[-600:]})
+    return True
+
+
 INCLUDE_BODIES = [["```{include} fmfile.md", "```"], ["~~~{include} fmfile.md", "~~~"], ["before", "", "```{include} fmfile.md", "```", "", "after"], ["```{include} plainfile.md", "```"], ["```{include} outerfile.md", "```"],
                   ["```{include} fmfile.md", ":start-line: 0", "```"], ["- item", "", "  ```{include} fmfile.md", "  ```"], ["> ```{include} fmfile.md", "> ```"]]
 
 
 def eval_case(ctx, case):
+    if case.get("kind") == "include_twice":
+        return eval_include_twice(ctx, case)
     if case["kind"] == "repeat":
         eval_repeat(ctx, case)
         return True
@@ -519,6 +543,11 @@ def run_shard(ctx):
             ctx.case(("include-body", repr(body), wrapper), True)
             ctx.count("include_bodies_compared")
     ctx.subrun("include_bodies_in_every_wrapper", exhaustive=True, bodies=len(INCLUDE_BODIES))
+    for k, pth in enumerate(["plainfile.md", "./plainfile.md", "sub/../plainfile.md", "sub/./../plainfile.md", "../TMPBASE/plainfile.md", ".//plainfile.md"]):
+        if k % ctx.nshards == ctx.shard % 6:
+            case = {"kind": "include_twice", "path": pth}
+            eval_case(ctx, case)
+            ctx.case(("include_twice", pth), True)
     for i in range(60 if quick else 3000):
         case = {"kind": "repeat", "uses": R.choice([["refdef"], ["footnote"], ["target"], ["refdef", "footnote"], ["refdef", "footnote", "target"]]), "wrapper": R.choice(["directive", "directive", "include", "subst"]), "layer": rand_layer(R)}
         eval_case(ctx, case)
